@@ -282,3 +282,63 @@ def random_restore_case(rng):
             break
     suffix = random_program(rng, maxops=5, start=start)["ops"]
     return {"fn": "wrestore", "start": {"x": [R(v) for v in xs], "y": [R(v) for v in ys]}, "prefix": prefix, "suffix": suffix}
+
+
+# ---------------------------------------------------------------------------------------------- transition cover of the shape abstraction
+def shape_cover(edges, rng, extra_walks=0, maxlen=10):
+    """edges: [{from, act, to}] emitted by MC_WeaverShape.  Returns programs (lists of abstract acts from an initial state)
+    such that every edge lies on at least one of them, plus seeded random walks."""
+    key = lambda s: json.dumps(s, sort_keys=True)
+    succ, states = {}, {}
+    for e in edges:
+        succ.setdefault(key(e["from"]), []).append((e["act"], key(e["to"])))
+        states[key(e["from"])] = e["from"]
+        states[key(e["to"])] = e["to"]
+    inits = [k for k, s in states.items() if s["n"] == 6 and s["r"] == 6 and not s["reshaped"] and not s["rec"] and s["sy"] in (["cy"], [])
+             and ((s["sx"] == ["cx"] and s["sy"] == ["cy"]) or (s["sx"] == [] and s["sy"] == []))]
+    # BFS tree from the two constructed states
+    parent = {}
+    order = []
+    for i in inits:
+        st = states[i]
+        parent[i] = None
+        order.append(i)
+    qi = 0
+    while qi < len(order):
+        u = order[qi]
+        qi += 1
+        for act, v in succ.get(u, []):
+            if v not in parent:
+                parent[v] = (u, act)
+                order.append(v)
+
+    def path_to(u):
+        acts = []
+        while parent[u] is not None:
+            u, a = parent[u]
+            acts.append(a)
+        return list(reversed(acts)), u
+    progs = []
+    covered = set()
+    for u in order:
+        for act, v in succ.get(u, []):
+            ek = (u, json.dumps(act, sort_keys=True))
+            if ek in covered:
+                continue
+            acts, root = path_to(u)
+            if len(acts) + 1 > maxlen + 2:
+                continue
+            covered.add(ek)
+            progs.append({"fn": "wshape", "arr": states[root]["sx"] == ["cx"], "acts": acts + [act]})
+    for _ in range(extra_walks):
+        u = rng.choice(inits)
+        acts = []
+        root = u
+        for _ in range(maxlen):
+            nxt = succ.get(u, [])
+            if not nxt:
+                break
+            a, u = rng.choice(nxt)
+            acts.append(a)
+        progs.append({"fn": "wshape", "arr": states[root]["sx"] == ["cx"], "acts": acts})
+    return progs, len(covered), sum(len(v) for v in succ.values())
